@@ -182,12 +182,23 @@ static void note_terminal(XSock *x, const char *call, int e) {
 
 int x_send(XSock *x, const void *buf, size_t len) {
     int rc, e;
+    x->send_inflight = true;
+    x->inflight.assign((const char *)buf, len);
+    x->inflight_taken = 0;
+    if (x->bytestream && !x->ghost.empty()) {
+        // part of this very data already reached the peer during an earlier, refused offer (known btls defect)
+        if (x->ghost.size() <= len && memcmp(x->ghost.data(), buf, x->ghost.size()) == 0) x->inflight_taken = x->ghost.size();
+        else x->ghost.clear();
+    }
     {
         ApiScope a("xcm_send", x, x->nonblocking);
         errno = 0;
         rc = xcm_send(x->s, buf, len);
         e = errno;
     }
+    x->send_inflight = false;
+    size_t taken = x->inflight_taken;
+    x->inflight_taken = 0;
     G->logf("xcm_send(%s, %zu) = %d%s%s", x->label.c_str(), len, rc, rc < 0 ? " " : "", rc < 0 ? strerror(e) : "");
     cur()->ops_since_poll++;
     if (!(rc < 0 && e == EAGAIN)) G->kmut++;   // API-level progress (or a terminal report) counts as a state change
@@ -198,18 +209,30 @@ int x_send(XSock *x, const void *buf, size_t len) {
             if ((size_t)rc > len || (len > 0 && rc == 0))
                 G->violation("C02.rc_range", "%s: byte-stream xcm_send(len %zu) returned %d", x->label.c_str(), len, rc);
             size_t n = std::min<size_t>((size_t)rc, len);
-            x->out_stream.append((const char *)buf, n);
+            if (taken > n && !x->ignore_delivery && x->ghost.size() <= n)
+                G->violation("C02.refused_bytes_delivered", "%s: xcm_send accepted %zu of %zu offered bytes but the peer received %zu bytes of that offer", x->label.c_str(), n, len, taken);
+            size_t skip = taken;
+            if (n > skip) x->out_stream.append((const char *)buf + skip, n - skip);
+            x->ghost.clear();
+            x->refused_offer.clear();
             x->stream_sent += n;
             x->led_from_app_bytes += n;
         } else {
             if (rc != 0) G->violation("C01.send_rc", "%s: messaging xcm_send returned %d", x->label.c_str(), rc);
-            x->out_fifo.emplace_back((const char *)buf, len);
+            if (!taken) x->out_fifo.emplace_back((const char *)buf, len);   // else: already received by the peer while the call was returning
             x->sent_ok++;
             x->led_from_app_msgs++;
             x->led_from_app_bytes += (int64_t)len;
         }
         x->finish_ok_since_send = false;
     } else {
+        if (taken > x->ghost.size() && !x->ignore_delivery && e != ECONNRESET && e != EPIPE && e != ETIMEDOUT)
+            G->violation(x->bytestream ? "C02.refused_bytes_delivered" : "C03.failed_send_delivered", "%s: xcm_send(%zu bytes) failed with %s but the peer received %s", x->label.c_str(), len, strerror(e),
+                         x->bytestream ? strf("%zu bytes of it", taken).c_str() : "the message");
+        if (x->bytestream && e == EAGAIN) {
+            x->refused_offer.assign((const char *)buf, len);
+            x->ghost.assign((const char *)buf, std::min(taken, len));
+        }
         x->last_send_errno = e;
         if (x->saw_eof && e != EPIPE && !is_refusal(e) && !x->ignore_delivery)
             G->violation("C06.send_after_close", "%s: xcm_send after the close was seen failed with %s, not EPIPE", x->label.c_str(), strerror(e));
@@ -246,6 +269,27 @@ int x_receive(XSock *x, void *buf, size_t cap) {
         if (p && !x->ignore_delivery && !p->ignore_delivery) {
             if (x->bytestream) {
                 size_t n = std::min<size_t>((size_t)rc, cap);
+                // bytes of a send that is still returning may already be here
+                std::string avail = p->out_stream;
+                size_t from_inflight = 0;
+                size_t from_refused = 0;
+                if (avail.size() < n && p->send_inflight) {
+                    size_t extra = std::min(n - avail.size(), p->inflight.size() - p->inflight_taken);
+                    avail.append(p->inflight, p->inflight_taken, extra);
+                    from_inflight = extra;
+                } else if (avail.size() < n && !p->send_inflight && p->refused_offer.size() > p->ghost.size()) {
+                    size_t extra = std::min(n - avail.size(), p->refused_offer.size() - p->ghost.size());
+                    avail.append(p->refused_offer, p->ghost.size(), extra);
+                    from_refused = extra;
+                }
+                if (avail.size() >= n && memcmp(avail.data(), buf, n) == 0 && from_inflight) {
+                    p->out_stream.clear();
+                    p->inflight_taken += from_inflight;
+                } else if (avail.size() >= n && memcmp(avail.data(), buf, n) == 0 && from_refused) {
+                    G->violation("C02.refused_bytes_delivered", "%s: received %zu byte(s) of an xcm_send call of the peer that was refused with EAGAIN and has not been retried yet", x->label.c_str(), from_refused);
+                    p->out_stream.clear();
+                    p->ghost.append(p->refused_offer, p->ghost.size(), from_refused);
+                } else
                 if (p->out_stream.size() < n || memcmp(p->out_stream.data(), buf, n) != 0) {
                     size_t off = 0;
                     while (off < n && off < p->out_stream.size() && p->out_stream[off] == ((const char *)buf)[off]) off++;
@@ -255,7 +299,13 @@ int x_receive(XSock *x, void *buf, size_t cap) {
                 } else p->out_stream.erase(0, n);
                 x->stream_recv += n;
             } else {
-                if (p->out_fifo.empty()) {
+                if (p->out_fifo.empty() && p->send_inflight && !p->inflight_taken && !p->bytestream) {
+                    const std::string &m = p->inflight;
+                    size_t want = std::min(m.size(), cap);
+                    if ((size_t)rc != want || memcmp(m.data(), buf, want) != 0)
+                        G->violation("C01.content", "%s: message #%llu differs from the message the peer is sending (len %zu): got %d bytes %s", x->label.c_str(), (unsigned long long)x->recv_ok, m.size(), rc, hexdump(buf, (size_t)rc).c_str());
+                    p->inflight_taken = 1;
+                } else if (p->out_fifo.empty()) {
                     G->violation("C01.phantom", "%s: received a %d-byte message but the peer has no accepted, undelivered message (duplicate or invented): %s", x->label.c_str(), rc, hexdump(buf, (size_t)rc).c_str());
                 } else {
                     const std::string &m = p->out_fifo.front();
@@ -274,6 +324,21 @@ int x_receive(XSock *x, void *buf, size_t cap) {
         if (x->term_errno != 0 && x->is_tcp_based && !x->ignore_delivery && cap > 0)
             G->violation("C06.sticky_errno", "%s: xcm_receive returned 0 after the connection had failed with %s", x->label.c_str(), strerror(x->term_errno));
         if (cap > 0 || !x->bytestream) x->saw_eof = true;
+        if (!x->peer) if (XSock *pp = x_find_peer(x)) x_pair(x, pp);
+        if (x->peer && x->peer->closed_after_flush && !x->ignore_delivery && !x->peer->ignore_delivery) {
+            // Did this end of the kernel connection itself break (reset / EPIPE after writing into a closed
+            // peer)? Then losing the tail is a statement about close handling (C06); on a healthy
+            // connection it is a delivery failure (C01/C02).
+            bool broke = x->saw_epipe;
+            if (auto t = std::dynamic_pointer_cast<TcpSock>(x_kernel_conn(x))) broke = broke || t->dead;
+            size_t nm = x->peer->out_fifo.size(), nb = x->peer->out_stream.size();
+            if (nm || nb) {
+                if (broke)
+                    G->violation("C06.lost_on_close", "%s: peer closed after flushing everything; this end's writes hit the closed peer (EPIPE/RST) and xcm_receive then returned 0 although %zu message(s)/%zu byte(s) that had been sent to it were never delivered", x->label.c_str(), nm, nb);
+                else
+                    G->violation(nm ? "C01.lost" : "C02.lost", "%s: xcm_receive returned 0 on a healthy connection although %zu message(s)/%zu byte(s) accepted and flushed by the peer before its close were never delivered", x->label.c_str(), nm, nb);
+            }
+        }
     } else {
         if (x->saw_eof && !is_refusal(e) && !x->ignore_delivery)
             G->violation("C06.eof_not_sticky", "%s: xcm_receive returned %s after having returned 0", x->label.c_str(), strerror(e));
@@ -324,6 +389,7 @@ int x_fd(XSock *x) {
 int x_close(XSock *x) {
     if (!x || x->closed || !x->s) return 0;
     int rc;
+    x->closed_after_flush = !x->is_server && !x->terminal() && !x->saw_epipe && (!x->nonblocking || x->finish_ok_since_send || x->sent_ok + x->stream_sent == 0);
     {
         ApiScope a("xcm_close", x, x->nonblocking);
         cur()->close_send_truncated = false;
@@ -383,6 +449,9 @@ bool x_read_counters(XSock *x, int64_t out[8]) {
 
 void x_check_counters(XSock *x, const char *after) {
     int64_t c[8];
+    // attribute access on TLS sockets is expensive (certificate extensions are decoded per call):
+    // every call is checked at first, every 16th later on
+    if (++x->cnt_calls > 150 && (x->cnt_calls & 15) != 0) return;
     if (!x_read_counters(x, c)) return;
     int n = x->bytestream ? 4 : 8;
     G->count("probe.counter_reads");
